@@ -17,8 +17,9 @@ Operations (viewgram ids of the subset follow):
   `phess|pahess <n> <c0> <V> pin… ids…`                                 → per voxel (c0 − product) − pin/n
   `phessfull|pahessfull <n> <c0> <V> pin… ids… / ids… / …`              → the subsets accumulated one after the other, each step penalised
   `balance <use_subset_sens> counts…` → `ok` / `refused`: does `set_up` accept subsets with these numbers of viewgrams;
-  `segrange <setting> <data max>` → the segment range after `set_up` or `err`;
-  `tofsens <recompute> <use_tofsens> <tof data> links…` (`T` trivial, `P0`/`P1` FromProjData without/with TOF, `E0`/`E1` table) → `use_tofsens` after `set_up`;
+  `segrange <setting> <data max>`, `tofrange <setting> <data max>` → the segment / TOF range after `set_up` or `err`;
+  `tofsens <recompute> <use_tofsens> <tof data> <TOF range restricted> links…` (`T` trivial, `P0`/`P1` FromProjData without/with TOF,
+  `E0`/`E1` table) → `use_tofsens` after `set_up`;
   a result that depends on a comparison within 2^-10 (relative) of one of the thresholds of
   `divide_and_truncate` / `accumulate_loglikelihood` is answered `near` (not compared);
   `range <n> <s>` → `ok ok` / `err err`: is subset number `s` of `n` accepted by the gradient / value functions;
@@ -201,19 +202,19 @@ def hessCore (c : Ctx) (c0 : Rat) (ids : List Nat) : Option (Array (Rat × Rat))
   let S := getVgs c.vgs ids
   let img := fun i => c.img.getD i 0
   let x := fun i => c.inp.getD i 0
-  let smallF := smallOf constsR (hessNum x)
-  if anyBin S (fun vg b => nearDiv (smallF vg) (hessNum x b) (ybarH img b * ybarH img b)) then none else
-  let cs := hessContribs constsR img x S
-  let mags := magContribs c.pmax smallF (hessW constsR img x) S
+  let smallF := smallOf constsR (hessNum c.zero x)
+  if anyBin S (fun vg b => nearDiv (smallF vg) (hessNum c.zero x b) (ybarH img b * ybarH img b)) then none else
+  let cs := hessContribs constsR c.zero img x S
+  let mags := magContribs c.pmax smallF (hessW constsR c.zero img x) S
   some (vecCore c.nvox (3 * maxRowLen S) c0 (-1) cs mags)
 
 def ahessCore (c : Ctx) (c0 : Rat) (ids : List Nat) : Option (Array (Rat × Rat)) :=
   let S := getVgs c.vgs ids
   let x := fun i => c.inp.getD i 0
-  let smallF := smallOf constsR (fun b : Bin Rat => fwd x b.row)
-  if anyBin S (fun vg b => nearDiv (smallF vg) (fwd x b.row) (applyNorm constsR b.fac (applyNorm constsR b.fac b.y))) then none else
-  let cs := ahessContribs constsR x S
-  let mags := magContribs c.pmax smallF (ahessW constsR x) S
+  let smallF := smallOf constsR (ahessNum c.zero x)
+  if anyBin S (fun vg b => nearDiv (smallF vg) (ahessNum c.zero x b) (applyNorm constsR b.fac (applyNorm constsR b.fac b.y))) then none else
+  let cs := ahessContribs constsR c.zero x S
+  let mags := magContribs c.pmax smallF (ahessW constsR c.zero x) S
   some (vecCore c.nvox (maxRowLen S + 8) c0 (-1) cs mags)
 
 /-- a penalised per-voxel quantity: `f (unpenalised) (prior term)`; three more float operations on the operands -/
@@ -351,9 +352,13 @@ def stepLine (c : Ctx) (line : String) : Ctx × String :=
     (c, match segRangeAfterSetUp (setting.toInt?.getD 0) (dmax.toInt?.getD 0) with
         | some m => toString m
         | none => "err")
-  | "tofsens" :: rec :: u :: tofData :: links =>
+  | ["tofrange", setting, dmax] =>
+    (c, match tofRangeAfterSetUp (setting.toInt?.getD 0) (dmax.toInt?.getD 0) with
+        | some m => toString m
+        | none => "err")
+  | "tofsens" :: rec :: u :: tofData :: restricted :: links =>
     let normTof := isTofOnlyNorm (links.map fun l => l == "P1" || l == "E1")
-    (c, if useTofsensAfterSetUp (rec == "1") (u == "1") (tofData == "1") normTof then "1" else "0")
+    (c, if useTofsensAfterSetUp (rec == "1") (u == "1") (tofData == "1") normTof (restricted == "1") then "1" else "0")
   | ["range", n, s] =>
     let a := if subsetAccepted (n.toInt?.getD 0) (s.toInt?.getD 0) then "ok" else "err"
     (c, a ++ " " ++ a)
